@@ -13,7 +13,7 @@ SPEC = {
         "Sema.C02.C02_change", "Sema.C02.C02_array_change", "Sema.C02.C02_search", "Sema.C02.C02_search_array",
         "Sema.C02.C02_int_search", "Sema.C02.C02_float_search", "Sema.C02.C02_string_search", "Sema.C02.C02_stringArray_search",
         "Sema.C02.C02_step", "Sema.C02.C02_history", "Sema.C02.C02_tree", "Sema.C02.C02_exact",
-        "Sema.C02.C02_id_lookup", "Sema.C02.C02_lacking_field", "Sema.C02.C02_rejected_unchanged",
+        "Sema.C02.C02_only_live", "Sema.C02.C02_id_lookup", "Sema.C02.C02_lacking_field", "Sema.C02.C02_rejected_unchanged",
     ],
     "trusted_base": [
         "SemaModel/C02/Model.lean is a hand transcription of inverted.go, string.go, array.go, dispatch.go/utils.go (getOperation, casts) and search.go; tied to the code by the correspondence run only (answers and bucket dumps)",
